@@ -118,6 +118,9 @@ type incErr struct {
 	Kind   string `json:"kind"` // cycle | notfound | toolarge | toodeep | other:<n>
 	Target string `json:"target"`
 	Line   int    `json:"line"`
+	// RootLine: line of the root file's directive through which the file that
+	// holds the failing directive is reached (= Line for the root's own directives)
+	RootLine int `json:"root_line,omitempty"`
 }
 
 func (e incErr) String() string { return fmt.Sprintf("%s(%s@%d)", e.Kind, e.Target, e.Line) }
@@ -130,6 +133,7 @@ func (g incGraph) refWalk(root int, depthLimit int) (loaded map[string]bool, ord
 	}
 	loaded = map[string]bool{}
 	onStack := map[string]bool{}
+	rootLine := 0
 	var walk func(i int, depth int)
 	walk = func(i int, depth int) {
 		name := incName(i)
@@ -139,12 +143,15 @@ func (g incGraph) refWalk(root int, depthLimit int) (loaded map[string]bool, ord
 		}
 		onStack[name] = true
 		for _, d := range g.directives(i) {
+			if i == root && depth == 0 {
+				rootLine = d.Line
+			}
 			if strings.HasPrefix(d.Target, "missing") {
-				errs = append(errs, incErr{"notfound", d.Target, d.Line})
+				errs = append(errs, incErr{"notfound", d.Target, d.Line, rootLine})
 				continue
 			}
 			if onStack[d.Target] {
-				errs = append(errs, incErr{"cycle", d.Target, d.Line})
+				errs = append(errs, incErr{"cycle", d.Target, d.Line, rootLine})
 				continue
 			}
 			if loaded[d.Target] {
@@ -153,11 +160,11 @@ func (g incGraph) refWalk(root int, depthLimit int) (loaded map[string]bool, ord
 			var j int
 			fmt.Sscanf(d.Target, "f%d.journal", &j)
 			if g.BigFile == j {
-				errs = append(errs, incErr{"toolarge", d.Target, d.Line})
+				errs = append(errs, incErr{"toolarge", d.Target, d.Line, rootLine})
 				continue
 			}
 			if depth+1 >= depthLimit {
-				errs = append(errs, incErr{"toodeep", d.Target, d.Line})
+				errs = append(errs, incErr{"toodeep", d.Target, d.Line, rootLine})
 				continue
 			}
 			walk(j, depth+1)
@@ -184,7 +191,7 @@ func classifyLoadErr(e include.LoadError) incErr {
 	case include.ErrorParseError:
 		kind = "parse"
 	}
-	return incErr{kind, filepath.Base(e.Path), e.Range.Start.Line}
+	return incErr{Kind: kind, Target: filepath.Base(e.Path), Line: e.Range.Start.Line}
 }
 
 func sortedErrs(es []incErr) []string {
@@ -427,9 +434,18 @@ func c10Wire(c *core.Ctx, dir string, g incGraph, rootPath string, wantErrs []in
 			gotLines = append(gotLines, d.StartLine+1)
 		}
 	}
+	// an error of a directive inside an included file is shown on the root's
+	// directive that leads there; every diagnostic lies inside the document
 	var wantLines []int
 	for _, e := range wantErrs {
-		wantLines = append(wantLines, e.Line)
+		wantLines = append(wantLines, e.RootLine)
+	}
+	nlines := strings.Count(string(b), "\n") + 1
+	for _, d := range diags {
+		if d.StartLine >= nlines || d.EndLine >= nlines {
+			viol("diagnostics published on include lines", "diagnostic outside the document", fmt.Sprintf("lines %d..%d of a document with %d lines: %s", d.StartLine, d.EndLine, nlines, d.Message))
+			break
+		}
 	}
 	sort.Ints(gotLines)
 	sort.Ints(wantLines)
